@@ -241,3 +241,7 @@ def check(P, R, tier):
     R.assumptions = ["rustc's HIR/typeck is the meaning of the program", "third-party crates behave as documented",
                      "persistence of last_voted_round across restarts is out of scope (TODO #15 in the source)"]
     rules(P, R)
+    # V6 second half: "the block's QC is of a lower round than the block" - every route into process_block has passed
+    # process_qc(&block.qc) (which advances the round past qc.round) BEFORE the block can be parked for a later resume (C10.P4)
+    from ..common import fold
+    fold(R, P, "c10", ("C10.P4",), "C03.V6", 6)
